@@ -5,6 +5,7 @@ import wrcheck
 import loadcheck
 import compcheck
 import c13check
+import c18check
 
 CHECKS = {}
 META = {}
@@ -114,3 +115,14 @@ META["C13"] = {
 }
 ENGINES.append({"name": "timer-wheel", "path": "tools/c13check.py", "serves_properties": ["C13"],
                 "kind_free_text": "TLC on spec/TimerWheel.tla; harness/expiration/verif_wheel_test.go; harness/otter/verif_sweep_test.go"})
+
+CHECKS["C18"] = c18check.run
+META["C18"] = {
+    "engine": "sketch-fold",
+    "text": "Sketch.tla: for every hash assignment of a small concrete sketch the estimate never under-counts the recordings of the period, never exceeds 15, is halved exactly by aging and is zero before initialisation; the real sketch (capacities 1..4097 incl. growth, fresh seeds) and policy.admit with injected randomness are validated call by call by SketchTrace.tla",
+    "design_ref": "DESIGN.md section 6 (C18)",
+    "note": "hash seeds and capacities are sampled; the exhaustive part is a 4x2 / 4x3 counter sketch with 2-3 keys",
+    "technique": "TLA+ spec (Sketch.tla) model-checked with TLC + deterministic-fold trace validation of the real sketch and admission rule (SketchTrace.tla)",
+}
+ENGINES.append({"name": "sketch-fold", "path": "tools/c18check.py", "serves_properties": ["C18"],
+                "kind_free_text": "TLC on spec/Sketch.tla; harness/otter/verif_sketch_test.go; spec/SketchTrace.tla"})
